@@ -276,7 +276,20 @@ def run(rep):
     try:
         GOALS = generate(uq, qtyping) + fp_goals(uq)
     except symnp.Undecided as e:
-        rep.errors.append(f'front end could not follow the code: {e}'); return
+        # the arithmetic carriers use something the symbolic front end does not lift: undecided by the contract; the laws are then searched natively on the real code
+        # (every law x {4, 8} bit x symmetry with the replay harness' own input grid; at 16 bit binary32 rounding is of the order of the half step, the native
+        # comparison is then only meaningful for a given counter-model) -- a failing input makes it a VIOLATION with that input, otherwise exit 2
+        found = None
+        for law in ('params', 'codes', 'roundtrip', 'quantize', 'monotone'):
+            for bits in (4, 8):
+                for sym in (True, False):
+                    try: rp = native_law(uq, qtyping, law, dict(bits=bits, sym=sym), {})
+                    except Exception as ex: rp = dict(confirmed=True, inputs=dict(law=law, num_bits=bits, symmetric=sym), observed=f'raised {type(ex).__name__}: {ex}')
+                    if rp.get('confirmed') and found is None: found = rp
+        ob = core.Ob('C17/uniform_quantize_tensor/engine-subset', None, 'cpython-exec-symnp', core.REFUTED if found else core.UNKNOWN, 0.0, detail=f'the symbolic front end could not follow the code: {e}',
+                     clause='functions within the symbolic-numpy subset')
+        if found: ob.replay = found
+        rep.add(ob); return
     res = core.run_pool(_discharge, len(GOALS))
     kf_ids = set()
     for g, (st, dt, be, model) in zip(GOALS, res):
